@@ -321,9 +321,10 @@ class RelEval:
             kind, target, rows = self.navigate(entity, row, path_parts(t[1]), env)
             if kind != "collection":
                 if kind == "scalar" and rows is None:
-                    # owner path navigates through a missing row: empty collection
+                    # owner path navigates through a missing row: an EMPTY collection - any is
+                    # false, all is (vacuously) true, as for a parent without children
                     self.flags.add("lambda-owner-through-null")
-                    return False if t[2] == "any" else UNSPEC
+                    return t[2] != "any"
                 return UNSPEC
             if t[3] is None:
                 return len(rows) > 0
@@ -433,6 +434,44 @@ def gen_lambda(rng, entity, prefix, depth, lambda_depth, opts):
     var = ["x", "y", "z"][lambda_depth]
     quant = "any" if r < 0.6 else "all"
     return ("lam", owner, quant, var, body_pred(rng, target, var, depth - 1, lambda_depth + 1, opts))
+
+
+def owner_path_lambda_grid(entity, max_hops=2):
+    """Deterministic cells: every collection reached from `entity` directly or through a to-one
+    path of 1..max_hops hops (no entity twice), as owner of any() / any(..) / all(..) with three
+    bodies, alone and combined with a root-level predicate by and / or / not.  The filters with
+    no or / not / null anywhere are among them."""
+    out = []
+    icol = sorted(c for c, t in COLS[entity].items() if t == "int")[0]
+    root_pred = ("cmp", "ge", T.ident(icol), T.lit("int", "0"))
+
+    def walk(e, prefix, seen, hops):
+        for rel in sorted(TO_MANY[e]):
+            owner = T.ident(rel) if prefix is None else ("attr", prefix, rel)
+            target = TO_MANY[e][rel]
+            ic = sorted(c for c, t in COLS[target].items() if t == "int")[0]
+            sc = sorted(c for c, t in COLS[target].items() if t == "str")[0]
+            bodies = [("cmp", "gt", T.path("x", ic), T.lit("int", "0")), ("cmp", "eq", T.path("x", ic), T.lit("int", "5")),
+                      ("call", "contains", (T.path("x", sc), T.S("x")))]
+            lams = [("lam", owner, "any", None, None)]
+            for b in bodies:
+                lams.append(("lam", owner, "any", "x", b))
+                lams.append(("lam", owner, "all", "x", b))
+            for lam in lams:
+                out.append(lam)
+                out.append(("bool", "and", lam, root_pred))
+                out.append(("bool", "and", root_pred, lam))
+                out.append(("bool", "or", lam, ("cmp", "lt", T.ident(icol), T.lit("int", "0"))))
+                out.append(("un", "not", lam))
+        if hops >= max_hops:
+            return
+        for rel in sorted(TO_ONE[e]):
+            tgt = TO_ONE[e][rel]
+            if tgt in seen:
+                continue
+            walk(tgt, T.ident(rel) if prefix is None else ("attr", prefix, rel), seen | {tgt}, hops + 1)
+    walk(entity, None, {entity}, 0)
+    return out
 
 
 def to_one_pred(rng, entity, opts):
